@@ -55,6 +55,7 @@ def run_unit(A, unit, rep, tier):
     elif kind == "flush_buffer":
         check_flush_buffer(A, rep)
         check_metadata_writers(A, rep)
+        check_not_swallowed(A, rep)
     else:
         check_context(A, rep)
 
@@ -113,6 +114,29 @@ def check_flush(A, rep, func, cls, force):
         else:
             rep.fail("C07.b", norm_key("C07.b", func.qualname, f"force={force}"),
                      f"{func.qualname} (force={force}) can leave - normally or by an exception - with the file's buffer entry still present and still counted", g.witness(w or []), label)
+
+
+def check_not_swallowed(A, rep):
+    """(g) a BufferedError / MetadataError raised by a flush is never turned into a normal return."""
+    for cls in A.concrete():
+        if not A.is_buffered(cls) or A.is_list(cls) or cls.is_subclass_of("AttrDict"):
+            continue
+        for m in ("__getitem__", "__setitem__", "__len__"):
+            b, g = A.graph(cls, m, "root", "backend")
+            rep.context(g.label, True)
+            rs = [n for n in live(g) if n.kind == "raise" and ("BufferedError" in (n["exc"] or ()))]
+            bad = None
+            for r in rs:
+                w = g.path(r.id, [g.exit])
+                if w is not None:
+                    bad = (r, w)
+                    break
+            if bad is None:
+                rep.ok("C07.g", f"C07.g {g.label}: a BufferedError raised by a (forced) flush always propagates to the caller ({len(rs)} raise sites)")
+            else:
+                r, w = bad
+                last_fn = next((g.nodes[i].func for i in w if g.nodes[i].kind in ("ret",) ), r.func)
+                rep.fail("C07.g", norm_key("C07.g", last_fn), f"a BufferedError raised during a flush can be swallowed (e.g. by a return inside finally in {last_fn}): the conflict is never reported although the buffered change is dropped", g.witness(w), g.label)
 
 
 def check_metadata_writers(A, rep):
@@ -219,6 +243,15 @@ def check_context(A, rep):
         for count in (1, 2):
             b, g = A.ctx_exit_graph(cls, "backend", count, 0)
             rep.context(g.label, True)
+            decs = [n.id for n in live(g) if n.kind == "count" and n["delta"] == -1]
+            for exit_id, what in ((g.exit, "returns"), (g.exc_exit, "raises")):
+                if exit_id in g.live:
+                    wdec = g.must_pass(g.entry, [exit_id], decs)
+                    if wdec is None and decs:
+                        rep.ok("C07.d", f"C07.d {g.label}: the context counter is decremented when __exit__ {what}")
+                    else:
+                        rep.fail("C07.d", norm_key("C07.d", "context.__exit__", "counter", what),
+                                 f"leaving the backend-wide context can finish ({what}) without decrementing the context counter: the class stays 'buffered' forever and later writes never reach the files", g.witness(wdec or []), g.label)
             pops = [n.id for n in live(g) if n.kind == "local_mut" and n["op"] == "pop" and "__exit__" in n.func]
             for exit_id, what in ((g.exit, "returns"), (g.exc_exit, "raises (a file conflicted during the flush)")):
                 if exit_id not in g.live:
